@@ -96,7 +96,7 @@ Fold(m, ws) == IF ws = <<>> THEN m
 RepKeys(rep) == {rep[j][1] : j \in 1..Len(rep)}
 NewTx(e) == [e |-> e, wrote |-> {}, rep |-> <<>>, reads |-> <<>>, lset |-> {}, lret |-> <<>>, failed |-> FALSE, bad |-> FALSE]
 NoTx == NewTx(NoName)
-NoItem == [n |-> 0, i |-> 0, tys |-> <<>>, rds |-> <<>>, txs |-> <<>>, dl |-> <<>>, dbad |-> FALSE]
+NoItem == [n |-> 0, i |-> 0, t |-> "", tys |-> <<>>, rds |-> <<>>, txs |-> <<>>, dl |-> <<>>, dbad |-> FALSE]
 NoLast == [ok |-> TRUE, txs |-> <<>>, n |-> 0]
 
 Emit(r) == act' = IF EmitOn THEN ToJson(r) ELSE ""
@@ -116,7 +116,7 @@ ItemBegin(n, e) ==
   /\ phase = "idle" /\ ~rej /\ nblk < MaxBlocks /\ nitem < MaxItems
   /\ n = 1 \/ (n >= 2 /\ n <= MaxGroup)
   /\ nitem' = nitem + 1 /\ ntx' = ntx + 1 /\ nops' = 0
-  /\ g' = [NoItem EXCEPT !.n = n, !.i = 1]
+  /\ g' = [NoItem EXCEPT !.n = n, !.i = 1, !.t = e.t]
   /\ cur' = NewTx(e)
   /\ tst' = EmptyS /\ tlo' = EmptyL /\ pw' = <<>> /\ plw' = <<>>
   /\ phase' = "exec"
@@ -240,9 +240,12 @@ Deferred(t) == Driver(t.e) # "none" /\ Driver(t.e) \notin SameTime
 \* is complete and a deferred member did
 MustReject == ~cur.failed /\ ((cur.bad /\ IsSameTime) \/ (g.i = g.n /\ (cur.bad \/ g.dbad)))
 
-\* member succeeded, more members follow: the overlays stay open
+\* member succeeded, more members follow: the overlays stay open.  A well-formed group holds
+\* transactions of one chain only (types.Transactions.Check: all main-chain names or all names of
+\* one para title), otherwise the whole group is invalid and never executed.
 TxNext(e) ==
   /\ phase = "end" /\ ~cur.failed /\ ~MustReject /\ g.i < g.n
+  /\ e.t = g.t
   /\ g' = [g EXCEPT !.i = @ + 1, !.tys = Append(@, TxTy(cur)), !.rds = Append(@, Rds(cur)),
                     !.txs = Append(@, Summ(cur, TxTy(cur))),
                     !.dl = IF Deferred(cur) THEN @ \o cur.lret ELSE @,
